@@ -377,9 +377,9 @@ def handle (j : J) : Except String J := do
     xstack (← j.string "top") (← j.array "layers")
   else if op = "mutparse" then
     -- pack with the model, damage the bytes ("trunc" n | "set" i v), parse the result: the malformed-input stream
-    let k ← kindOf (← j.string "top")
-    let p ← ofChain (← j.array "layers")
-    match packU none p with
+    let k ← xkindOf (← j.string "top")
+    let p ← ofChainX (← j.array "layers")
+    match xpackU none p with
     | .error (.unmodelled c) => throw s!"unmodelled:{c}"
     | .error e => pure (J.mk [("exc", J.str e.toString)])
     | .ok (_, bs) =>
@@ -392,8 +392,15 @@ def handle (j : J) : Except String J := do
           let v ← m.nat "v"
           pure (if i < acc.length then acc.set i (UInt8.ofNat v) else acc)
         else throw "unknown mutation") bs
-      let rest ← parsedAndRepack k raw
-      pure (J.mk ([("raw", J.ofBytes raw)] ++ rest))
+      let rest ← xparsedAndRepack k raw
+      -- frames that stay inside the ten original classes must get the same answer from the original chain parser
+      match k with
+      | .core ck =>
+        let q := parseTop ck raw
+        if (hasUnmodelled q).isSome = false ∧ (J.arr (chainJ q)).render ≠ (J.arr (xchainJ (xparseTop k raw))).render
+        then throw "original and extended model disagree"
+        else pure (J.mk ([("raw", J.ofBytes raw)] ++ rest))
+      | _ => pure (J.mk ([("raw", J.ofBytes raw)] ++ rest))
   else if op = "parse" then
     let k ← kindOf (← j.string "top")
     pure (J.mk (← parsedAndRepack k (← j.bytes "raw")))
